@@ -1069,6 +1069,8 @@ def discarded_results(ctx, rule, prefixes, what):
                                           key='%s|short-circuit|%s' % (rule, fn.qn))
                             break
     single_step_cursors(ctx, rule, fns, what)
+    swapped_arguments(ctx, rule, fns, what)
+    keys_only_memo_keys(ctx, rule, fns, what)
     for site_, names_, src_ in late_bound_in(fns, with_yield=False):
         ctx.violation(rule, what, site_, 'the deferred step `%s` reads the loop variable%s %s at call time, i.e. after the loop has moved on: every collected callable works on the last element'
                       % (src_[:70], 's' if len(names_) > 1 else '', ', '.join(names_)), key='%s|late-binding|%s' % (rule, site_.split(':')[0]))
@@ -1336,6 +1338,123 @@ def _stored_without(fn, table, missing):
                                                  isinstance(t_.value.value, ast.Name) and t_.value.value.id == 'self' for t_ in k.targets):
                 sites.append(m)
     return bool(sites) and all(m is not fn and not ({a_.arg for a_ in m.node.args.args} & set(missing)) for m in sites)
+
+
+def swapped_arguments(ctx, rule, fns, what):
+    """Positional arguments are bound by POSITION: f(self.pre_market, self.post_market) against def f(post_market, pre_market) hands each flag to the other's parameter.
+    Reported only for an exact swap - two arguments each named (variable or attribute name) exactly like the OTHER one's parameter - at a call every resolved target of
+    which shows the same swap."""
+    n = 0
+
+    def nm(e_):
+        if isinstance(e_, ast.Name):
+            return e_.id.lstrip('_')
+        if isinstance(e_, ast.Attribute):
+            return e_.attr.lstrip('_')
+        return None
+    for fn in fns:
+        env = None
+        for call in ast.walk(fn.node):
+            if not isinstance(call, ast.Call) or len(call.args) < 2 or any(isinstance(a_, ast.Starred) for a_ in call.args):
+                continue
+            names = [nm(a_) for a_ in call.args]
+            if sum(1 for x_ in names if x_) < 2:
+                continue
+            try:
+                env = env if env is not None else ctx.M.local_env(fn)
+                tgts, _how, _layer = ctx.M.resolve_call(fn, call, env)
+            except Exception:
+                continue
+            tgts = [t_ for t_ in (tgts or []) if hasattr(t_, 'node') and isinstance(t_.node, (ast.FunctionDef,))]
+            if not tgts:
+                continue
+            n += 1
+            found = None
+            for t_ in tgts:
+                ps_ = [a_.arg for a_ in t_.node.args.args]
+                bound = isinstance(call.func, ast.Attribute) or t_.name == '__init__'
+                if ps_ and ps_[0] in ('self', 'cls') and (bound or t_.cls is not None):
+                    ps_ = ps_[1:]
+                ps_ = [x_.lstrip('_') for x_ in ps_]
+                sw = None
+                for i_ in range(min(len(names), len(ps_))):
+                    for j_ in range(i_ + 1, min(len(names), len(ps_))):
+                        if names[i_] and names[j_] and names[i_] != names[j_] and names[i_] == ps_[j_] and names[j_] == ps_[i_]:
+                            sw = (i_, j_, ps_[i_], ps_[j_], t_.qn)
+                if sw is None:
+                    found = None
+                    break
+                found = sw
+            if found:
+                i_, j_, pi_, pj_, qn_ = found
+                ctx.violation(rule, what, fn.site(call), 'READ!: `%s` in %s passes %s and %s by position to %s, whose parameters at those positions are (%s, %s): each value is bound to the '
+                              'other one\'s parameter' % (ast.unparse(call)[:80], fn.qn, ast.unparse(call.args[i_])[:30], ast.unparse(call.args[j_])[:30], qn_, pi_, pj_),
+                              key='%s|swapped-arguments|%s|%s' % (rule, fn.qn, qn_))
+    ctx.holds(rule, what + ' (no call binds two positional arguments to each other\'s parameter; %d resolved calls with named arguments looked at)' % n, None)
+
+
+def _reads_dict_values(cls, m, pname, depth=2, seen=None):
+    """m reads the VALUES of its parameter pname as a mapping (pname.values() / .items() / pname[k] / .get(k)), itself or by handing it whole to another method of the object."""
+    seen = seen if seen is not None else set()
+    if m is None or (m.qn, pname) in seen:
+        return False
+    seen.add((m.qn, pname))
+    for k in ast.walk(m.node):
+        if isinstance(k, ast.Call) and isinstance(k.func, ast.Attribute) and k.func.attr in ('values', 'items', 'get') and isinstance(k.func.value, ast.Name) and k.func.value.id == pname:
+            return True
+        if isinstance(k, ast.Subscript) and isinstance(k.value, ast.Name) and k.value.id == pname and isinstance(k.ctx, ast.Load):
+            return True
+    if depth > 0 and cls is not None:
+        for k in ast.walk(m.node):
+            if isinstance(k, ast.Call) and isinstance(k.func, ast.Attribute) and isinstance(k.func.value, ast.Name) and k.func.value.id == 'self':
+                h = cls.methods.get(k.func.attr)
+                if h is None:
+                    continue
+                hp = [a_.arg for a_ in h.node.args.args][1:]
+                for i_, a_ in enumerate(k.args):
+                    if isinstance(a_, ast.Name) and a_.id == pname and i_ < len(hp) and _reads_dict_values(cls, h, hp[i_], depth - 1, seen):
+                        return True
+    return False
+
+
+def keys_only_memo_keys(ctx, rule, fns, what):
+    """Iterating a mapping yields its KEYS: tuple(sorted(weights)) names the assets and forgets the weights.  A remembered answer that is reused when such a key equals the
+    stored one (key == self._last_key, key in self._table), in a method whose answer is computed from the mapping's values, is handed out again for different values."""
+    n = 0
+    WRAP = {'tuple', 'sorted', 'frozenset', 'list', 'set'}
+    for fn in fns:
+        if not isinstance(fn.node, ast.FunctionDef) or fn.cls is None or not fn.node.args.args or fn.node.args.args[0].arg != 'self':
+            continue
+        params = {a_.arg for a_ in fn.node.args.args[1:]}
+        for asg in ast.walk(fn.node):
+            if not (isinstance(asg, ast.Assign) and len(asg.targets) == 1 and isinstance(asg.targets[0], ast.Name)):
+                continue
+            K = asg.targets[0].id
+            bare = None
+            for c_ in ast.walk(asg.value):
+                if isinstance(c_, ast.Call) and isinstance(c_.func, ast.Name) and c_.func.id in WRAP and len(c_.args) >= 1 and isinstance(c_.args[0], ast.Name) and c_.args[0].id in params:
+                    bare = c_.args[0].id
+            if bare is None:
+                continue
+            if any(isinstance(c_, ast.Attribute) and c_.attr in ('items', 'values') and isinstance(c_.value, ast.Name) and c_.value.id == bare for c_ in ast.walk(asg.value)):
+                continue
+            # the key is compared with kept state / looked up in a kept table
+            used = None
+            for c_ in ast.walk(fn.node):
+                if isinstance(c_, ast.Compare) and len(c_.ops) == 1 and isinstance(c_.ops[0], (ast.Eq, ast.NotEq, ast.In, ast.NotIn)):
+                    sides = [c_.left, c_.comparators[0]]
+                    if any(isinstance(x_, ast.Name) and x_.id == K for x_ in sides) and \
+                            any(isinstance(x_, ast.Attribute) and isinstance(x_.value, ast.Name) and x_.value.id == 'self' for x_ in sides):
+                        used = c_
+            if used is None:
+                continue
+            n += 1
+            if not _reads_dict_values(fn.cls, fn, bare):
+                continue
+            ctx.violation(rule, what, fn.site(asg), 'READ!: %s reuses a remembered answer when `%s`, but `%s = %s` runs over the KEYS of the mapping %s only, while the answer is computed from its values '
+                          '(%s.values()/.items()/[...] is read): the same keys with other values are handed the earlier answer' % (fn.qn, ast.unparse(used)[:60], K, ast.unparse(asg.value)[:60], bare, bare),
+                          key='%s|keys-only-key|%s' % (rule, fn.qn))
+    ctx.holds(rule, what + ' (no remembered answer reused under a key that runs over the keys of a mapping whose values the answer depends on; %d such keys looked at)' % n, None)
 
 
 def unread_atoms(M, got, expected=None, fn=None):
